@@ -7,7 +7,6 @@ import fnspec
 
 LEVEL = "model_checking"
 SAMPLE = 100          # rows the importer looks at to guess headers and width (import_csv._parse_open_file)
-DELIMS = {"comma": ",", "semi": ";", "tab": "\t", "pipe": "|"}
 
 
 # ---------------------------------------------------------------------------------------------
